@@ -520,6 +520,22 @@ def step (st : DState) (toks : List String) : DState × String :=
       let st2 := { st with tm := TM.new st' r h m f, pct := Float32.ofBits (UInt32.ofNat pb) }
       (st2, showTM st2)
     | _, _, _, _, _, _ => (st, "bad-op")
+  | ["tmq.new", static, resend, hs, mult, freq, pctBits] =>
+    -- the quiet variants answer "ok": a whole history observed on a real connection is replayed, and
+    -- only the state it ends in (tm.show) is compared
+    match parseBool static, resend.toInt?, hs.toInt?, mult.toInt?, freq.toNat?, pctBits.toNat? with
+    | some st', some r, some h, some m, some f, some pb =>
+      ({ st with tm := TM.new st' r h m f, pct := Float32.ofBits (UInt32.ofNat pb) }, "ok")
+    | _, _, _, _, _, _ => (st, "bad-op")
+  | ["tmq.sent", k, seq, resent, t] =>
+    match parseKind k, seq.toNat?, parseBool resent, t.toInt? with
+    | some k, some seq, some r, some t => ({ st with tm := st.tm.sent k seq r t }, "ok")
+    | _, _, _, _ => (st, "bad-op")
+  | ["tmq.recv", k, seq, t] =>
+    match parseKind k, seq.toNat?, t.toInt? with
+    | some k, some seq, some t => ({ st with tm := st.tm.received k seq t }, "ok")
+    | _, _, _ => (st, "bad-op")
+  | ["tm.show"] => (st, showTM st)
   | ["tm.sent", k, seq, resent, t] =>
     match parseKind k, seq.toNat?, parseBool resent, t.toInt? with
     | some k, some seq, some r, some t =>
